@@ -111,7 +111,13 @@ def r2(cx):
                         # the push can repeat without advancing the chunk iterator
                         if any(p in b.reachable(p, removed_blocks={o}) and b.reaches(p, p, removed_blocks={o}) for o in outer):
                             multi.append(p)
-            if multi:
+            # a group grows only by that one push: no bulk extension (extend / append / extend_from_slice) of a group with other chunks' paths
+            bulk = [bi for bi, t in b.calls() if re.search(r"(Extend(<.*>)?::extend|Vec::<T, A>::(extend_from_slice|append|extend_from_within|insert|splice))$", t["callee"])
+                    and any("String" in b.locals[a["pl"]["l"]]["ty"] and "Vec<" in b.locals[a["pl"]["l"]]["ty"] for a in t["args"][:1] if a.get("k") in ("copy", "move"))]
+            if bulk:
+                cx.violation(fk, "one-group-per-chunk", "%s: a candidate group is extended in bulk with other chunks' paths while the per-chunk walk goes on: those chunks are pushed again when the walk "
+                             "reaches them and land in two groups of one cycle" % b.sp(bulk[0]), [b.sp(bulk[0])])
+            elif multi:
                 cx.violation(fk, "one-group-per-chunk", "%s: the path can be pushed more than once per chunk" % b.sp(multi[0]), [b.sp(multi[0])])
             elif pushes:
                 cx.passed(fk, "one-group-per-chunk", [b.sp(p) for p in pushes[:2]])
